@@ -537,6 +537,8 @@ def lib_adapter(which, config):
         outs = {"crc": dut.crc, "match_detected": dut.match_detected}
 
         def tr(st):
+            if st["k"] == "rst":
+                return ("drive", {"sync.rst": st["l"]})
             return ("set", st["v"]) if st["k"] == "set" else ("drive", {"sync.clk": st["l"]})
     return dut, doms, ins, outs, tr, None
 
